@@ -1,8 +1,30 @@
 #!/bin/bash
-# Builds the Lean library, the drivers and warms the Go build cache. Offline.
+# Builds, offline, what the registered checks need: the Lean property modules and drivers of every
+# check listed in MANIFEST.json, and the Go harness packages (against /repo's working tree).
 set -e
 cd "$(dirname "$0")"
 export GOFLAGS=-mod=mod GOPROXY=off GOSUMDB=off GOTOOLCHAIN=local
-(cd lean && lake build Hive Driver $(grep -o 'drv_c[0-9]*' lakefile.toml | sort -u))
-(cd harness && go build -tags verif ./... )
+python3 - <<'PY'
+import json, os, subprocess, sys
+sys.path.insert(0, os.getcwd())
+import checklib
+man = json.load(open("MANIFEST.json"))
+targets, pkgs = [], []
+for c in man["checks"]:
+    spec = checklib.load_spec(c["property_id"])
+    mods = spec["lean_props"] if isinstance(spec["lean_props"], list) else [spec["lean_props"]]
+    targets += mods + spec.get("lean_extra", [])
+    for part in checklib.parts_of(spec):
+        if part.get("driver"): targets.append(part["driver"])
+        if part.get("harness"): pkgs.append("./" + part["harness"])
+targets = sorted(set(targets)); pkgs = sorted(set(pkgs))
+print("lake build", " ".join(targets), flush=True)
+subprocess.check_call(["lake", "build"] + targets, cwd="lean")
+print("go build", " ".join(pkgs), flush=True)
+if len(pkgs) == 1:
+    subprocess.check_call(["go", "build", "-tags", "verif", "-o", os.devnull] + pkgs, cwd="harness")
+elif pkgs:
+    subprocess.check_call(["go", "build", "-tags", "verif"] + pkgs, cwd="harness")  # several main packages: results are discarded, the build cache is warm
+subprocess.check_call(["go", "build", "-tags", "verif", "./tools/..."], cwd="harness")
+PY
 echo setup-ok
